@@ -32,6 +32,10 @@ Record trait_fn := mkTF {
 
 (** ** analyze_generics.rs *)
 
+(** [extract_trait_bounds]: a relaxed bound ([?Sized]) is not a requirement on the dependency *)
+Definition is_relaxed (b : toks) : bool := starts_with_punct "?"%char b.
+Definition trait_bounds (l : list toks) : list toks := filter (fun b => negb (is_relaxed b)) l.
+
 Definition where_items (g : generics) : list wpred :=
   match g_where g with Some p => p_items p | None => [] end.
 
@@ -68,7 +72,7 @@ Definition deps_where_step (deps_name : string) (acc : list toks * trait_generic
     | BPath qself leading nsegs first =>
         if qself || leading then (bounds, tg_push_where tg w)
         else if negb (Nat.eqb nsegs 1) then (bounds, tg_push_where tg w)
-        else if String.eqb first deps_name then (bounds ++ wp_bounds w, tg)
+        else if String.eqb first deps_name then (bounds ++ trait_bounds (wp_bounds w), tg)
         else (bounds, tg)      (* a predicate on another single-segment type: dropped from the trait *)
     | BOther => (bounds, tg_push_where tg w)
     end
@@ -80,14 +84,14 @@ Definition find_deps_generic_bounds (tg : trait_generics) (g : generics) (name :
   | None => None
   | Some (idx, p) =>
       let tg1 := push_others (p_items (g_params g)) 0 idx tg in
-      let '(bounds, tg2) := fold_left (deps_where_step name) (where_items g) (gp_bounds p, tg1) in
+      let '(bounds, tg2) := fold_left (deps_where_step name) (where_items g) (trait_bounds (gp_bounds p), tg1) in
       Some (DGeneric (Some name) bounds, tg2)
   end.
 
 Fixpoint extract_deps_from_type (tg : trait_generics) (g : generics) (ty : fty)
   : result (fn_deps * trait_generics) :=
   match ty with
-  | TyImpl _ bounds => Ok (DGeneric None bounds, deps_with_generics tg g)
+  | TyImpl _ bounds => Ok (DGeneric None (trait_bounds bounds), deps_with_generics tg g)
   | TyPath qself leading nsegs first _ =>
       if qself then Err (EMsg "No self allowed")
       else if leading then Err (EMsg "No leading colon allowed")
